@@ -99,16 +99,31 @@ func Solve(workDir, name, query string, timeoutS int, all bool) SolveResult {
 	go func() { wg.Wait(); close(ch) }()
 	best := ans{status: ""}
 	rank := map[string]int{"unsat": 5, "sat": 4, "unknown": 2, "timeout": 1, "error": 0, "": -1}
-	for a := range ch {
-		res.Answers[a.s.Name] = a.status
-		definitive := a.status == "unsat" || (a.status == "sat" && strings.HasPrefix(a.s.Name, "z3"))
-		if rank[a.status] > rank[best.status] {
-			best = a
-		}
-		if definitive && !all {
-			best = a
+	var grace <-chan time.Time
+loop:
+	for {
+		select {
+		case a, ok := <-ch:
+			if !ok {
+				break loop
+			}
+			res.Answers[a.s.Name] = a.status
+			definitive := a.status == "unsat" || (a.status == "sat" && strings.HasPrefix(a.s.Name, "z3"))
+			if rank[a.status] > rank[best.status] {
+				best = a
+			}
+			if definitive && !all {
+				best = a
+				cancel()
+				break loop
+			}
+			if definitive && all && grace == nil {
+				// cross-check tier: the other solvers get a few more seconds to agree or disagree, not the full limit
+				grace = time.After(5 * time.Second)
+			}
+		case <-grace:
 			cancel()
-			break
+			break loop
 		}
 	}
 	res.Status, res.Solver, res.Time, res.Output = best.status, best.s.Name, best.dur, best.out
